@@ -78,6 +78,34 @@ def check_strategy(kind: int, b0: bool, b1: bool, b2: bool, b3: bool) -> bool:
         return core.final(roundtrip_strategy(k, bits))
 
 
+PAIR_KINDS = [("FiniteLang", lambda v: R.FiniteLang(v // 2, bool(v % 2))), ("MixFactory", lambda v: R.MixFactory(bool(v % 2)))]
+
+
+def roundtrip_pair(kind, x, y):
+    """Two strategies of the same class whose *own* settings (not the four base flags) may differ are written and loaded one
+    after the other in the same process: each must come back equal to itself (a loader must not hand out an earlier instance)."""
+    name, mk = PAIR_KINDS[kind]
+    for v in (x, y):
+        s = mk(v)
+        s2 = strategy_from_dict(json.loads(json.dumps(s.to_jsonable())))
+        if not (s2 == s and s == s2) or repr(s2) != repr(s):
+            return _fail("%r loaded after %r is not equal to its JSON round trip %r" % (s, mk(x), s2))
+    return True
+
+
+def check_strategy_pair(kind: int, x: int, y: int) -> bool:
+    """
+    pre: 0 <= kind < 2 and 0 <= x < 6 and 0 <= y < 6
+    post: _
+    """
+    k = pick(kind, 0, 1)
+    a = pick(x, 0, 5)
+    b = pick(y, 0, 5)
+    with NoTracing():
+        core.tally((k, a, b))
+        return core.final(roundtrip_pair(k, a, b))
+
+
 PACK_OPTS = sorted(e2e.OPTSETS)
 
 
@@ -190,6 +218,8 @@ def on_shape(shape):
 def groups(tier):
     gs = [{"name": "strategies", "fn": "check_strategy", "shape": {}, "cond_timeout": 600.0, "path_timeout": 60.0,
            "expect_space": len(KINDS) * 16, "weight": 200},
+          {"name": "strategy-pairs", "fn": "check_strategy_pair", "shape": {}, "cond_timeout": 600.0, "path_timeout": 60.0,
+           "expect_space": 72, "weight": 72},
           {"name": "packs", "fn": "check_pack", "shape": {}, "cond_timeout": 600.0, "path_timeout": 60.0,
            "expect_space": len(PACK_OPTS), "weight": 20}]
     return gs + e2e.std_groups(tier, sched=False, rng=(tier == "thorough"))
@@ -208,7 +238,8 @@ def meta(tier):
                       CombinatorialSpecification.to_jsonable, CombinatorialSpecification.from_dict, Rule.to_jsonable, Rule.from_dict,
                       VerificationRule.to_jsonable, VerificationRule.from_dict, EquivalenceRule.to_jsonable, EquivalenceRule.from_dict,
                       EquivalencePathRule.to_jsonable, EquivalencePathRule.from_dict, ReverseRule.to_jsonable, ReverseRule.from_dict],
-        "bounds": "(a) 10 strategy kinds x 16 setting combinations; (b) all %d packs of the option catalogue; (c) every specification returned for 64 two-state tables x 3 "
+        "bounds": "(a) 10 strategy kinds x 16 setting combinations; (a') 72 ordered pairs of strategies of one class with own settings (FiniteLang(min_state, packless), "
+                  "MixFactory(foreign_first)) loaded one after the other in one process; (b) all %d packs of the option catalogue; (c) every specification returned for 64 two-state tables x 3 "
                   "databases x the option sets listed below (thorough: more option sets, draw tapes, 3-state tables); counts compared to n<=5" % len(PACK_OPTS),
     })
     m["bounds"] = str(m.get("bounds", "")) + " || end-to-end groups of this run: " + e2e.describe_groups(groups(tier))
